@@ -385,7 +385,12 @@ class StorageFrontend:
         if not (fuzzy_for or fuzzy_for_options):
             return lineage == desired_lineage
         args = [fuzzy_for, fuzzy_for_options]
-        return self._filter_lineage(lineage, *args) == self._filter_lineage(desired_lineage, *args)
+        # Compare the way exact matching does, by deterministic hash: a stored
+        # lineage went through json, so e.g. tuple-valued options come back as
+        # lists and would never compare equal to the lineage of the context.
+        return strax.deterministic_hash(
+            self._filter_lineage(lineage, *args)
+        ) == strax.deterministic_hash(self._filter_lineage(desired_lineage, *args))
 
     @staticmethod
     def _filter_lineage(lineage, fuzzy_for, fuzzy_for_options):
